@@ -16,7 +16,7 @@ SPEC = dict(
         thorough=[
             dict(name="c37_any", bounds="as quick, datagrams up to 20 octets", reach=["rejected", "rcode", "norecords"], sample_every=9973),
             dict(name="c37_rr", bounds="as quick with 4 symbolic RDATA octets", reach=["rejected", "records"], sample_every=3001),
-            dict(name="c37_name", bounds="as quick with 4 fully symbolic owner-name octets", reach=["rejected", "records"], sample_every=3001),
+            dict(name="c37_name", bounds="as quick with 5 fully symbolic owner-name octets", reach=["rejected", "records"], sample_every=9973),
             dict(name="c37_ptr", bounds="as quick with (i) 5 fully symbolic RDATA octets, (ii) one more symbolic octet after the pointer", reach=["rejected", "records"], sample_every=9973),
             dict(name="c37_faithful", bounds="as quick, all spelled-out names 0..2 labels of 1..2 octets, 0..1 trailing octet after the answer section", reach=["rcode", "records", "norecords"], sample_every=197),
             dict(name="c37_faithful2", bounds="as quick with 0..2 records, all labels 1 octet", reach=["rcode", "records", "norecords"], sample_every=3001),
